@@ -180,6 +180,16 @@ def tie_check(exe, n, seed):
             hx = gen.hx
             one(pre + [f"remove 0 0 {hx(b'x')}", f"remove 0 0 {hx(b'd')}", f"undel 0 0 {nb // 2} {sect[b'x']}", f"undel 0 0 {nb // 2} {sect[b'd']}",
                        "free 0 0", "list 0 0 1", "unmount 0 0", "closedev 0"])
+    # adfGetDelEnt (modelled): the probe's getdel histories, without the harness-only allocation count
+    hx = gen.hx
+    rng = vlib.rng_for(seed, "getdeltie")
+    for dt in range(8):
+        one(gen.prologue(dt, clock=(2019, 9, 9, 9, 9, 9)) + [f"open 1 0 0 {hx(b'x')} 2", f"write 1 {rng.choice([0, 700, 40000])} 1", "close 1", f"mkdir 0 0 {hx(b'd')}",
+            f"open 1 0 0 {hx(b'keep')} 2", "close 1", "getdel 0 0", f"remove 0 0 {hx(b'x')}", f"remove 0 0 {hx(b'd')}", "getdel 0 0",
+            f"open 1 0 0 {hx(b'z')} 2", "write 1 600 3", "close 1", "getdel 0 0", "unmount 0 0", "closedev 0"])
+    k = rng.choice([1, 2]); parts = [(2, 60, b"p0", 1), (62, 70, b"p1", rng.randrange(8)), (132, 60, b"p2", rng.randrange(8))]
+    one(["newdev 0 200 2 32", "clock 2014 4 5 6 7 8", "mkhd 0 3 " + " ".join(f"{a} {l} {hx(nm)} {t}" for a, l, nm, t in parts), "closedev 0", "opendev 0 0",
+         f"mount 0 {k} 0", f"open 1 0 {k} {hx(b'x')} 2", "write 1 700 1", "close 1", f"remove 0 {k} {hx(b'x')}", f"getdel 0 {k}", f"unmount 0 {k}", "closedev 0"])
     return cnt[0], out
 
 def tie_report(res, exe, n):
@@ -230,8 +240,8 @@ def hardfile_probe(exe, seed):
 
 def getdel_probe(exe, seed):
     """adfGetDelEnt / adfFreeDelList (the listing of deleted entries that undelete tools start from; real code only):
-    nothing deleted, some entries deleted, and the second partition of a partitioned disk (block numbers are
-    volume-relative).  Judged: sanitizer reports and the allocation count after closing everything."""
+    nothing deleted, some entries deleted, and a later partition of a partitioned disk (block numbers are
+    volume-relative).  The function is modelled too (getDelEnt) and tied in tie_check.  Judged here: sanitizer reports and the allocation count after closing everything."""
     hx = gen.hx
     rng = vlib.rng_for(seed, "getdel")
     dt = rng.randrange(8)
